@@ -57,6 +57,14 @@ impl Agenda {
     /// Acquire handle to next propagator to run, removing it from the [`Agenda`].
     #[inline]
     pub fn pop(&mut self) -> Option<PropId> {
+        #[cfg(selen_verif)]
+        if !self.q.is_empty() {
+            if let Some(i) = crate::verif_hooks::agenda_pick(self.q.len()) {
+                let p = self.q.remove(i)?;
+                self.set_scheduled(p, false);
+                return Some(p);
+            }
+        }
         // Pop scheduled propagators in FIFO order to avoid starvation
         let p = self.q.pop_front()?;
 
